@@ -1,0 +1,106 @@
+//go:build verif
+
+package immutable
+
+import (
+	"path/filepath"
+
+	"github.com/openGemini/openGemini/lib/fileops"
+	"github.com/openGemini/openGemini/lib/record"
+	"github.com/openGemini/openGemini/lib/util"
+	"github.com/openGemini/openGemini/lib/util/lifted/vm/protoparser/influx"
+)
+
+// Hook for the verification harness (/verif, property C03). Compiled only with the `verif`
+// build tag. It exposes the metadata the read path prunes with (trailer id / time range, the
+// chunk-meta blocks of the meta index with their id, time range and item count, the chunk
+// metas with their per-segment time ranges, the bloom filter) next to the timestamps really
+// stored in every segment, and lets the harness lower the size of a chunk-meta block.
+
+// VerifSetChunkMetaBlockLimits sets how many chunk metas (count) / bytes (size) a chunk-meta
+// block of a ts-store data file holds before the writers start the next block; a value <= 0
+// restores the default.
+func VerifSetChunkMetaBlockLimits(count, size int) {
+	if count <= 0 {
+		count = util.DefaultMaxChunkMetaItemCount
+	}
+	if size <= 0 {
+		size = util.DefaultMaxChunkMetaItemSize
+	}
+	tsStoreConf.maxChunkMetaItemCount = count
+	tsStoreConf.maxChunkMetaItemSize = size
+}
+
+// VerifC03Segment is one segment of a chunk: the time range its chunk meta stores for it and the
+// timestamps read from its data.
+type VerifC03Segment struct {
+	Min, Max int64
+	Times    []int64
+}
+
+// VerifC03Chunk is one chunk (series) of a data file.
+type VerifC03Chunk struct {
+	Sid      uint64
+	InBloom  bool // the file's bloom filter answers yes for the series id
+	Segments []VerifC03Segment
+}
+
+// VerifC03MetaBlock is one entry of the meta index with the chunks of its block.
+type VerifC03MetaBlock struct {
+	ID               uint64
+	MinTime, MaxTime int64
+	Count            uint32
+	Chunks           []VerifC03Chunk
+}
+
+// VerifC03FileMeta is what the reader knows about one data file.
+type VerifC03FileMeta struct {
+	Name             string
+	Order            bool
+	MinID, MaxID     uint64
+	IDCount          int64
+	MinTime, MaxTime int64
+	Blocks           []VerifC03MetaBlock
+}
+
+// VerifReadFileMeta reads the metadata and every segment's timestamps of one data file.
+func VerifReadFileMeta(f TSSPFile) (VerifC03FileMeta, error) {
+	tr := f.FileStat()
+	out := VerifC03FileMeta{Name: filepath.Base(f.Path()), Order: f.IsOrder(), MinID: tr.minId, MaxID: tr.maxId,
+		IDCount: tr.idCount, MinTime: tr.minTime, MaxTime: tr.maxTime}
+	n := int(f.MetaIndexItemNum())
+	decs := NewReadContext(true)
+	schema := record.Schemas{record.Field{Name: record.TimeField, Type: influx.Field_Type_Int}}
+	for i := 0; i < n; i++ {
+		mi, err := f.MetaIndexAt(i)
+		if err != nil {
+			return out, err
+		}
+		blk := VerifC03MetaBlock{ID: mi.id, MinTime: mi.minTime, MaxTime: mi.maxTime, Count: mi.count}
+		cms, err := f.ReadChunkMetaData(i, mi, nil, fileops.IO_PRIORITY_LOW_READ)
+		if err != nil {
+			return out, err
+		}
+		for j := range cms {
+			cm := &cms[j]
+			ok, _ := f.Contains(cm.sid)
+			ch := VerifC03Chunk{Sid: cm.sid, InBloom: ok}
+			for s := 0; s < int(cm.segCount); s++ {
+				sr := cm.timeRange[s]
+				seg := VerifC03Segment{Min: sr[0], Max: sr[1]}
+				rec := record.NewRecordBuilder(schema)
+				rec, err = f.ReadAt(cm, s, rec, decs, fileops.IO_PRIORITY_LOW_READ)
+				if err != nil {
+					return out, err
+				}
+				if rec != nil {
+					seg.Times = append(seg.Times, rec.Times()...)
+				}
+				ch.Segments = append(ch.Segments, seg)
+			}
+			blk.Chunks = append(blk.Chunks, ch)
+		}
+		out.Blocks = append(out.Blocks, blk)
+	}
+	return out, nil
+}
